@@ -601,6 +601,7 @@ def post_find_rule(rep, fn):
             continue
         # forward from the advance: first dereference of v on each path, stopping at a relational test of v or a re-assignment
         seen = set()
+        derived = set()
         work = [(pos[0], pos[1] + 1)]
         bad = None
         while work and bad is None:
@@ -615,8 +616,13 @@ def post_find_rule(rep, fn):
                 for y, ps2 in walk(e):
                     if y.get("k") == "bin" and y["op"] in ("<", ">", "<=", ">=") and v["id"] in core.ref_ids(y):
                         stop = True
+                    # a quantity computed from the advanced pointer (remaining = end - p) and then tested counts as the test
+                    if y.get("k") == "bin" and y["op"] in ("<", ">", "<=", ">=", "==", "!=") and (core.ref_ids(y) & derived):
+                        stop = True
                     if y.get("k") == "bin" and y["op"] == "=" and core.is_ref(core.strip_casts(y["x"]), id=v["id"]):
                         stop = True
+                    if y.get("k") == "bin" and y["op"] == "=" and v["id"] in core.ref_ids(y["y"]) and core.strip_casts(y["x"]).get("k") == "ref":
+                        derived.add(core.strip_casts(y["x"]).get("id"))
                 if stop:
                     break
                 for y, ps2 in walk(e):
@@ -701,6 +707,112 @@ def parsed_addend_rule(rep, fn):
         else:
             rep.violated("R-WRAP", fn, inst, desc, "no dominating relational test of '%s' itself: a value near the type's maximum wraps the "
                          "pointer, and a later test of the sum against the end passes" % parsed[tgt], x.get("ln"))
+    return n
+
+
+def _sum_terms(e):
+    """{atom key: coeff, '': const} of a +-chain (no expansion), None if something else"""
+    e = core.strip_casts(e)
+    if e is None:
+        return None
+    cv = const_val(e)
+    if cv is not None:
+        return {"": cv}
+    if e.get("k") == "bin" and e["op"] == "+":
+        a, b = _sum_terms(e["x"]), _sum_terms(e["y"])
+        if a is None or b is None:
+            return None
+        r = dict(a)
+        for k_, v in b.items():
+            r[k_] = r.get(k_, 0) + v
+        return r
+    if e.get("k") == "bin" and e["op"] == "-" and const_val(e["y"]) is not None:
+        a = _sum_terms(e["x"])
+        if a is None:
+            return None
+        r = dict(a)
+        r[""] = r.get("", 0) - const_val(e["y"])
+        return r
+    return {key(e): 1}
+
+
+def guard_agree_rule(rep, fn):
+    """R-AGREE (capacity test vs bytes written): an output cursor c with end pointer m is guarded by `m <= c + E` (leave);
+    the copies into c that follow before the next such guard advance c by L1, L2, ...  The quantity compared must be the
+    quantity written: every term of L1 + L2 + ... occurs in E.  A copy into c with no such guard before it at all is
+    reported too (the tail copy after a loop whose guards only covered the loop's own copies)."""
+    COPY = {"memcpy": 2, "memmove": 2}
+    # guards: cond blocks whose condition is a relation between an end pointer and cursor + E
+    guards = []
+    for bid in fn.reachable_blocks():
+        c = fn.blocks[bid].cond
+        if c is None:
+            continue
+        for y, _ in walk(c):
+            if y.get("k") == "bin" and y["op"] in ("<", ">", "<=", ">="):
+                for side, other in ((y["x"], y["y"]), (y["y"], y["x"])):
+                    t = _sum_terms(side)
+                    o = core.strip_casts(other)
+                    if t is None or o is None or o.get("k") != "ref" or "t" not in o or fn.unit.type(o["t"])["k"] != "ptr":
+                        continue
+                    ptrs = [k_ for k_ in t if k_ and any(r.get("k") == "ref" and key(r) == k_ and "t" in r and fn.unit.type(r["t"])["k"] == "ptr"
+                                                          for r, _ in walk(side))]
+                    if len(ptrs) == 1 and len(t) >= 2:
+                        e_ = {k_: v for k_, v in t.items() if k_ != ptrs[0]}
+                        guards.append((bid, ptrs[0], e_, y.get("ln")))
+    if not guards:
+        return 0
+    cursors = {g[1] for g in guards}
+    n = 0
+    copies = []
+    for pos, root, c, ps in fn.calls(set(COPY)):
+        d = core.strip_casts(c["args"][0])
+        if d.get("k") == "ref" and key(d) in cursors:
+            copies.append((pos, c, key(d)))
+    by_guard = {}
+    for pos, c, cur in copies:
+        doms = [g for g in guards if g[1] == cur and g[0] != pos[0] and fn.dominates(g[0], pos[0])]
+        # nearest: the one dominated by all the others
+        near = None
+        for g in doms:
+            if all(fn.dominates(o[0], g[0]) for o in doms):
+                near = g
+        # a guard inside a loop does not cover a copy after the loop
+        if near is not None:
+            loops = fn.loops()
+            gl = [h for h, body in loops.items() if near[0] in body]
+            if any(pos[0] not in loops[h] for h in gl):
+                near = None
+        by_guard.setdefault(near[0] if near else None, []).append((pos, c, cur, near))
+    for gk, items in by_guard.items():
+        n += 1
+        cur = items[0][2]
+        if gk is None:
+            for pos, c, cur, _g in items:
+                rep.violated("R-AGREE", fn, "capacity-test:%s:unguarded#%d" % (cur, n), "%s: every copy into the output cursor '%s' is preceded by a capacity test" % (fn.name, cur),
+                             "%s(%s, ..., %s) at line %s is not covered by any test of '%s' against its end (the tests inside the loop cover only the loop's "
+                             "own copies)" % (c["fn"], cur, key(c["args"][2])[:40], c.get("ln"), cur), c.get("ln"))
+            continue
+        g = items[0][3]
+        written = {}
+        ok_lin = True
+        for pos, c, cur, _g in items:
+            t = _sum_terms(c["args"][COPY[c["fn"]]])
+            if t is None:
+                ok_lin = False
+                continue
+            for k_, v in t.items():
+                written[k_] = written.get(k_, 0) + v
+        desc = "%s: the capacity test of '%s' at line %s compares what the following copies write" % (fn.name, cur, g[3])
+        inst = "capacity-test:%s#%d" % (cur, n)
+        missing = [k_ for k_, v in written.items() if k_ and v > g[2].get(k_, 0)]
+        if not ok_lin:
+            rep.undecided("R-AGREE", fn, inst, desc, "a copy length is not a sum of terms")
+        elif missing:
+            rep.violated("R-AGREE", fn, inst, desc, "the test adds %s, the copies write %s: '%s' is written but not counted" % (
+                " + ".join(k_ for k_ in g[2] if k_) or "a constant", " + ".join(k_ for k_ in written if k_), missing[0]), g[3])
+        else:
+            rep.proved("R-AGREE", fn, inst, desc, "%s" % " + ".join(k_ for k_ in written if k_), g[3])
     return n
 
 
@@ -795,6 +907,21 @@ def stale_remaining_rule(rep, fn):
 COPY_CALLS_PAIRS = {"memcpy": [(0, 2), (1, 2)], "memmove": [(0, 2), (1, 2)], "memset": [(0, 2)], "memchr": [(0, 2)], "memcmp": [(0, 2), (1, 2)]}
 
 
+def all_lints(rep, fn):
+    """every structural lint of this module on one function"""
+    short_circuit_rule(rep, fn)
+    stale_bound_rule(rep, fn)
+    unguarded_write_rule(rep, fn)
+    tail_fill_rule(rep, fn)
+    stale_length_rule(rep, fn)
+    stale_remaining_rule(rep, fn)
+    stale_end_rule(rep, fn)
+    r_outdef.check(rep, fn)
+    post_find_rule(rep, fn)
+    parsed_addend_rule(rep, fn)
+    guard_agree_rule(rep, fn)
+
+
 def run_scope(rep, tier, us, exclude=(), only=None, budget_quick=45, extra_rules=()):
     """analyse every function defined in the units' own files; returns (functions, tracked accesses)"""
     jobs = []
@@ -810,16 +937,7 @@ def run_scope(rep, tier, us, exclude=(), only=None, budget_quick=45, extra_rules
         nfn += len(names)
         for n in names:
             fn = u.fn(n)
-            short_circuit_rule(rep, fn)
-            stale_bound_rule(rep, fn)
-            unguarded_write_rule(rep, fn)
-            tail_fill_rule(rep, fn)
-            stale_length_rule(rep, fn)
-            stale_remaining_rule(rep, fn)
-            stale_end_rule(rep, fn)
-            r_outdef.check(rep, fn)
-            post_find_rule(rep, fn)
-            parsed_addend_rule(rep, fn)
+            all_lints(rep, fn)
             for r in extra_rules:
                 r(rep, fn)
     return nfn, total
